@@ -176,19 +176,11 @@ Definition remove_idx (s : state) (index : Z) (keep : bool) : state * result :=
       (mkS (upd (mem s) i (flag_nan (nth i (mem s) pzero))) (sN s) (sNact s) (sNvar s) (tab s) (nlook s)
            (tree s) (oob s + chk (length (mem s)) i), RFlagged i)
     else
+      (* N--; particles[index] = particles[N]; if (N_active > N) N_active = N; *)
       let n1 := sN s - 1 in
-      if (index <? sNact s)%Z then
-        (* an active particle goes: N_active--; particles[index] = particles[N_active]; index = N_active;
-           then particles[index] = particles[N]  (the last active particle fills the hole, the last
-           particle fills its slot) *)
-        let na := Z.to_nat (sNact s - 1) in
-        let m1 := upd (mem s) i (nth na (mem s) pzero) in
-        (mkS (upd m1 na (nth n1 m1 pzero)) n1 (sNact s - 1)%Z (sNvar s) (tab s) (nlook s) (tree s)
-             (oob s + chk (length (mem s)) na + chk (length (mem s)) i
-                    + chk (length (mem s)) n1 + chk (length (mem s)) na), RRemoved i)
-      else
-        (mkS (upd (mem s) i (nth n1 (mem s) pzero)) n1 (sNact s) (sNvar s) (tab s) (nlook s) (tree s)
-             (oob s + chk (length (mem s)) n1 + chk (length (mem s)) i), RRemoved i).
+      (mkS (upd (mem s) i (nth n1 (mem s) pzero)) n1
+           (if (Z.of_nat n1 <? sNact s)%Z then Z.of_nat n1 else sNact s) (sNvar s) (tab s) (nlook s) (tree s)
+           (oob s + chk (length (mem s)) n1 + chk (length (mem s)) i), RRemoved i).
 
 (* reb_simulation_remove_particle_by_hash: lookup, then reb_simulation_particle_index (pointer scan, no
    particle memory read), then remove by index *)
@@ -244,21 +236,22 @@ Definition has_hash (h : N) (l : list particle) : Prop := exists p, In p l /\ ph
 Definition refused (a : astate) (keep : bool) : bool :=
   negb (aNvar a =? 0) || (keep && atree a).
 
-(* post-state of removing the valid index i, with the N_active rule: removing an index below N_active
-   decrements N_active on every path that really removes (order-preserving, unsorted, last remaining
-   particle without a tree); with a tree the removal is deferred: the particle is only flagged.  Unsorted removal of an active
-   particle keeps the active particles contiguous: the last active particle fills the hole and the last
-   particle fills the slot of the last active one. *)
+(* post-state of removing the valid index i, with the N_active rule of the code:
+   - order-preserving removal and removal of the last remaining particle (no tree): N_active is
+     decremented when i < N_active;
+   - unsorted removal (no tree): the last particle is moved into the hole and N_active is left as it is,
+     except that it is clamped to the new N when it would exceed it (so a test particle moved into an
+     active slot becomes active, and N_active = N stays N_active = N);
+   - with a tree the unsorted removal is deferred: the particle is only flagged, nothing else changes. *)
 Definition dec_nact (a : astate) (i : nat) : Z :=
   if (Z.of_nat i <? aNact a)%Z then (aNact a - 1)%Z else aNact a.
+Definition clamp_nact (a : astate) : Z :=
+  if (Z.of_nat (length (aps a) - 1) <? aNact a)%Z then Z.of_nat (length (aps a) - 1) else aNact a.
 Definition aremove (a : astate) (i : nat) (keep : bool) : astate :=
   if (length (aps a) =? 1) && negb (atree a) then mkA [] (dec_nact a i) (aNvar a) (atree a)
   else if keep then mkA (remove_nth i (aps a)) (dec_nact a i) (aNvar a) (atree a)
   else if atree a then mkA (upd (aps a) i (flag_nan (nth i (aps a) pzero))) (aNact a) (aNvar a) (atree a)
-  else if (Z.of_nat i <? aNact a)%Z then
-    let na := Z.to_nat (aNact a - 1) in
-    mkA (remove_swap na (upd (aps a) i (nth na (aps a) pzero))) (aNact a - 1)%Z (aNvar a) (atree a)
-  else mkA (remove_swap i (aps a)) (aNact a) (aNvar a) (atree a).
+  else mkA (remove_swap i (aps a)) (clamp_nact a) (aNvar a) (atree a).
 
 Definition removed_result (a : astate) (i : nat) (keep : bool) : result :=
   if negb keep && atree a then RFlagged i else RRemoved i.
